@@ -2,7 +2,7 @@
 C13 (source tie) — the hand-written model of `Role::is_allowed` (`KM.Http.Role.isAllowed`,
 Http/Role.lean) equals the definition that the translator `pure_fns` regenerates from
 `/repo/src/daemon/http/auth/roles.rs` on every run (`Generated/PureFnsC13.lean`,
-`KM.Gen.Role.is_allowed`).
+`KM.Gen.C13.Role.is_allowed`).
 
 `role_semantics`, `served_iff` and `listing_filtered` (Props/C13.lean) are about `Role.isAllowed`:
 a request for a specific CA is judged by that CA's own entry when the role has one (whether it
@@ -23,7 +23,7 @@ open KM.Http KM.Generated
 
 /-- The generated body with the model's permission sets plugged in. -/
 abbrev genIsAllowed (r : Role) (p : Permission) (res : Option Handle) : Bool :=
-  KM.Gen.Role.is_allowed (H := Handle) (P := Permission) (S := PermSet) has r.entry r.any r.none p res
+  KM.Gen.C13.Role.is_allowed (H := Handle) (P := Permission) (S := PermSet) has r.entry r.any r.none p res
 
 /-- `Role::is_allowed` as translated from the source = the model the C13 theorems are about, for
 every role, permission and resource. -/
@@ -32,7 +32,7 @@ theorem gen_is_allowed_eq_model (r : Role) (p : Permission) (res : Option Handle
   cases res with
   | none => rfl
   | some h =>
-    simp only [genIsAllowed, KM.Gen.Role.is_allowed, Role.isAllowed]
+    simp only [genIsAllowed, KM.Gen.C13.Role.is_allowed, Role.isAllowed]
     cases r.entry h <;> rfl
 
 /-- Hence the generated body consults exactly `Role.perms`. -/
